@@ -26,7 +26,8 @@ func DecodeEscape(in *bytes.Buffer, byteMode bool) (out *bytes.Buffer, err error
 	decodeHex := func(what byte, i, size int) error {
 		i++
 		if i+size <= len(runes) {
-			cout, err := strconv.ParseInt(string(runes[i:i+size]), 16, 32)
+			// ParseUint, not ParseInt: a sign is not a hex digit
+			cout, err := strconv.ParseUint(string(runes[i:i+size]), 16, 32)
 			if err != nil {
 				return py.ExceptionNewf(py.ValueError, "invalid \\%c escape at position %d", what, i-2)
 			}
